@@ -1,6 +1,7 @@
 from enum import Enum, auto
 
 from bardolph.controller.units import UnitMode
+from bardolph.lib.symbol_table import SymbolType
 from bardolph.parser.code_gen import CodeGen
 from bardolph.parser.sub_parser import SubParser
 from bardolph.parser.token import TokenTypes
@@ -157,11 +158,6 @@ class LoopParser(SubParser):
     def _pre_loop_with(self, code_gen, context_stack) -> bool:
         if not self._init_index_var(context_stack):
             return False
-        if self.current_token.is_a(TokenTypes.IN):
-            code_gen.add_instruction(OpCode.MOVEQ, 0, LoopVar.COUNTER)
-            self._loop_type = _LoopType.LIST
-            self.next_token()
-            return self._pre_loop_list(code_gen, context_stack)
         if self.current_token.is_a(TokenTypes.FROM):
             self.next_token()
             if not self._index_var_range(code_gen):
@@ -173,7 +169,9 @@ class LoopParser(SubParser):
         else:
             return self.token_error(
                 'Needed "from" or "cycle", got "{}"')
-        return True
+        # The variable exists from here on: its own range is evaluated before
+        # it gets its first value.
+        return self._add_loop_var(context_stack, self._index_var)
 
     def _pre_loop_and(self) -> bool:
         self.next_token()
@@ -190,15 +188,24 @@ class LoopParser(SubParser):
         if not self.current_token.is_a(TokenTypes.NAME):
             return self.token_error('Expected name for lights, got "{}"')
         self._light_var = str(self.current_token)
-        context_stack.add_variable(self._light_var)
+        if not self._add_loop_var(context_stack, self._light_var):
+            return False
         return self.next_token()
 
     def _init_index_var(self, context_stack) -> bool:
         if not self.current_token.is_a(TokenTypes.NAME):
             return self.token_error('Not a variable name: "{}"')
         self._index_var = str(self.current_token)
-        context_stack.add_variable(self._index_var)
         return self.next_token()
+
+    def _add_loop_var(self, context_stack, name) -> bool:
+        # A loop assigns to its variable, which a macro doesn't allow.
+        if (not context_stack.has_symbol_typed(name, SymbolType.VAR)
+                and not context_stack.get_macro(name).undefined):
+            return self.trigger_error(
+                'Attempt to assign to constant "{}"'.format(name))
+        context_stack.add_variable(name)
+        return True
 
     def _index_var_range(self, code_gen) -> bool:
         if not self.rvalue(LoopVar.FIRST):
